@@ -637,6 +637,15 @@ def _r1_r4(ctx, pkg):
                     okf = cf == sorted(map(repr, [cj2, ("attr", bv, "A")])) and bool(m2) and hv.get(m2.group(1)) == NAME(bv) and \
                         hv[denh[0][1]] == ("attr", s2, "A") and base == ELEMS and tuple(ifs) == (cj2,)
                     detail = f"over {show(base)}: coefficient {[show(x) for x in flat_mult(hv[numh[0][1]])]}, rptr index {idx}->{show(hv.get(m2.group(1))) if m2 else '?'}, divisor {show(hv[denh[0][1]])}, filter {[show(c) for c in ifs]}"
+                    # understood and wrong: the divisor is a mass RE-SUMMED over elements (`sum(c * elem.A ..)`) and never reads the species'
+                    # own mass number -- the matrix was built with spec.A, so the two disagree for every species that holds an element
+                    # outside the summed list (CO without atomic C in the network)
+                    dv = hv[denh[0][1]]
+                    if not okf and not contains(dv, lambda t: isinstance(t, tuple) and len(t) == 3 and t[0] == "attr" and t[1] == s2 and t[2] in ("A", "massnumber")) \
+                            and contains(dv, lambda t: isinstance(t, tuple) and len(t) >= 2 and t[0] == "call" and t[1] == ("global", "sum")) \
+                            and contains(dv, lambda t: isinstance(t, tuple) and len(t) == 3 and t[0] == "attr" and t[2] in ("A", "massnumber")):
+                        suref = True
+                        detail = "the divisor is a sum of element masses, not the species' mass number spec.A the matrix term divides by: " + detail
             except calg.CParseError as ex:
                 detail = f"{lw.text!r}: {ex}"
                 suref = False
